@@ -33,7 +33,7 @@ LITERALS = [L(n) for n in ("literal_str", "literal_int", "literal_bytes", "liter
 
 def bounds(tier):
     return dict(tier=tier, members=[space.show(m) for m in _members(tier)], arities=[2, 3], pool=len(foreign.POOL),
-                spellings=["Union", "nested Union", "Optional[Union]", "PEP 604", "TypeVar constraints"],
+                spellings=["Union", "nested Union", "Optional[Union]", "PEP 604", "TypeVar constraints", "scalar members behind NewType / Annotated chains up to three deep"],
                 entry_points=["codec", "mixin"])
 
 
@@ -64,6 +64,18 @@ def units(tier):
         out.append((("tvconstr", a, b), tier))
         out.append((("union", ("union", a, b), L("uuid")), tier))
         out.append((("optpipe", ("pep604", a, b)), tier))
+    # scalar members reached through chains of NewType / Annotated (the exact-type rule looks through all of them)
+    scalars = [L("int"), L("float"), L("bool"), L("str")]
+    chains = [lambda e: ("newtype", e), lambda e: ("newtype", ("newtype", e)), lambda e: ("annotated", ("newtype", e)),
+              lambda e: ("annotated", ("newtype", ("newtype", e))), lambda e: ("newtype", ("newtype", ("newtype", e)))]
+    for base in scalars:
+        for ch in chains:
+            w = ch(base)
+            for other in scalars:
+                if other != base:
+                    out.append((("union", other, w), tier))
+                    out.append((("union", w, other), tier))
+                    out.append((("union", other, w, ("list", L("int"))), tier))
     for lit in LITERALS:
         out.append((lit, tier))
         out.append((("list", lit), tier))
